@@ -140,6 +140,7 @@ Qed.
 
 Lemma below_one_val : (IZR (2 ^ 24 - 1) * bpow radix2 (-24) = 1 - / IZR (2 ^ 24))%R.
 Proof.
+  change (bpow radix2 (-24)) with (bpow radix2 (- (24))).
   rewrite bpow_opp, <- two24_bpow, minus_IZR.
   assert (IZR (2 ^ 24) <> 0)%R by (apply not_0_IZR; lia).
   field. assumption.
